@@ -99,11 +99,8 @@ Proof.
       * cbn [snd ok_status]. apply py_catch_ok. exact W.
 Qed.
 
-Section PyRun.
-Variable crc32c crc32 : list Z -> Z.
-Variable dec : Z -> list Z -> dres.
 
-Lemma py_v2_uncompress_wp h buf :
+Lemma py_v2_uncompress_wp dec h buf :
   wp (py_v2_uncompress dec h buf) (fun r => 0 <= snd r).
 Proof.
   unfold py_v2_uncompress.
@@ -112,14 +109,14 @@ Proof.
   destruct (dec _ _); [cbn [wp snd]; lia|exact I].
 Qed.
 
-Theorem py_v2_run_ok validate buf : ok_status (snd (py_v2_run crc32c dec validate buf)).
+Theorem py_v2_run_ok crc32c dec validate buf : ok_status (snd (py_v2_run crc32c dec validate buf)).
 Proof.
   unfold py_v2_run.
   assert (W : wp (py_v2_new buf) (fun _ => True)).
   { unfold py_v2_new. step py_unpack_from_wp. intros l _. exact I. }
   destruct (py_v2_new buf) as [h|e]; cbn [wp] in W; [|exact W].
   destruct (validate && negb (py_v2_validate crc32c h buf)); [exact I|].
-  pose proof (py_v2_uncompress_wp h buf) as U.
+  pose proof (py_v2_uncompress_wp dec h buf) as U.
   destruct (py_v2_uncompress dec h buf) as [[b pos]|e]; cbn [wp snd] in U; [|exact U].
   apply py_v2_iter_ok; [lia|lia|unfold zlen; lia].
 Qed.
@@ -173,7 +170,7 @@ Proof.
   destruct (py_l_key_value buf (mp + ko)) as [[key value]|e]; cbn [wp] in W; [apply IH|exact W].
 Qed.
 
-Lemma py_l_iter_ok magic main buf : ok_status (snd (py_l_iter dec fx magic main buf)).
+Lemma py_l_iter_ok dec magic main buf : ok_status (snd (py_l_iter dec fx magic main buf)).
 Proof.
   unfold py_l_iter. cbv zeta.
   destruct (l_attrs main mod 8 =? 0).
@@ -192,7 +189,7 @@ Proof.
     + apply py_l_inner_ok.
 Qed.
 
-Theorem py_l_run_ok validate magic buf : ok_status (snd (py_l_run crc32 dec fx validate magic buf)).
+Theorem py_l_run_ok crc32 dec validate magic buf : ok_status (snd (py_l_run crc32 dec fx validate magic buf)).
 Proof.
   unfold py_l_run.
   assert (W : wp (py_l_new magic buf) (fun _ => True)).
@@ -219,7 +216,7 @@ Proof.
 Qed.
 
 (* the slice handed out last was buf[q:pos]; the measure is the distance of norm(q) to the end *)
-Theorem py_mr_loop_ok validate buf : forall fuel pos next acc,
+Theorem py_mr_loop_ok crc32c crc32 dec validate buf : forall fuel pos next acc,
   (0 < fuel)%nat ->
   (next = None \/
    exists q, next = Some (py_slice buf q pos) /\ pos <= zlen buf /\
@@ -248,7 +245,7 @@ Proof.
     destruct W as [-> Hle]. exists pos. split; [reflexivity|]. split; [assumption|]. lia.
 Qed.
 
-Theorem py_decode_ok validate buf : ok_status (snd (py_decode crc32c crc32 dec fx validate buf)).
+Theorem py_decode_ok crc32c crc32 dec validate buf : ok_status (snd (py_decode crc32c crc32 dec fx validate buf)).
 Proof.
   unfold py_decode.
   pose proof (py_cache_next_wp buf 0) as W.
@@ -260,4 +257,3 @@ Proof.
   unfold zlen in *. lia.
 Qed.
 
-End PyRun.
